@@ -124,7 +124,7 @@ def run(ctx):
                                       "canonical values whose decode was compared with the original": exact_checked,
                                       "inside_wt, not canonical (round trip up to norm)": prep.get("domain", {}).get("wt", 0),
                                       "outside_wt (compared by result class and bytes only)": prep.get("domain", {}).get("illtyped", 0),
-                                      "msg_container (hand-written codec, correspondence only)": prep.get("domain", {}).get("c", 0),
+                                      "msg_container (hand-written codec; C01_container_roundtrip + correspondence)": prep.get("domain", {}).get("c", 0),
                                       "not representable in the model (skipped)": prep.get("domain", {}).get("unsupported", 0)},
          "types_in_universe": len(prep["structs"]), "registered_ids": len(prep["regl"]), "types_found_by_source_scan": prep["nscanned"],
          "projection": "result class ok/err/panic, produced bytes, abstracted decoded value; error texts not compared"})
